@@ -108,8 +108,11 @@ class ChanFamily:
     def gen(self, rng, idx, opts):
         wf = model(rng)
         chans = [{'id': 'main', 'gen': 0}]
+        store = rng.choice(['mem', 'mem', 'mem', 'sqlite'])
         for i in range(rng.randint(2, 5)):
             c = {'id': f'c{i}', 'gen': 0, 'events': False}
+            if rng.random() < 0.3:
+                c['ack'] = True          # an acknowledging client: its messages are recorded; what it receives is decided by its filter all the same
             for f in ('type', 'state', 'tag', 'key', 'uses'):
                 if rng.random() < 0.55:
                     c[f] = genpat(rng, f)
@@ -146,7 +149,7 @@ class ChanFamily:
             ops.append({'op': 'quiesce'})
         ops += [{'op': 'run'}, {'op': 'snapshot', 'level': 'live'}]
         rt = rng.choice([{'flavor': 'current'}, {'flavor': 'current', 'chaos': {'max_yields': 3, 'seed': rng.randrange(1, 1 << 40)}}, {'flavor': 'multi', 'workers': 2, 'chaos': {'max_yields': 2, 'seed': rng.randrange(1, 1 << 40)}}])
-        sc = {'id': '', 'family': 'chan', 'sched': rt['flavor'], 'runtime': rt, 'engine': {'store': 'mem', 'keep_processes': True}, 'models': [json.dumps(wf)], 'channels': chans,
+        sc = {'id': '', 'family': 'chan', 'sched': rt['flavor'] + '-' + store, 'runtime': rt, 'engine': {'store': store, 'keep_processes': True}, 'models': [json.dumps(wf)], 'channels': chans,
               'responder': {'mode': 'quiescent', 'rules': [{'match': {'uses': IRQ}, 'action': 'next', 'times': 100}]}, 'ops': ops}
         return {'scenarios': [sc], 'meta': {'wf': wf}, 'digest': digest([wf, chans, ops]), 'nontrivial': True}
 
